@@ -12,14 +12,20 @@ import (
 func New() *Handler {
 	return &Handler{
 		m:        new(sync.Mutex),
-		requests: map[int64]chan event{},
+		requests: map[int64]client{},
 	}
 }
 
 type Handler struct {
 	m        *sync.Mutex
 	counter  int64
-	requests map[int64]chan event
+	requests map[int64]client
+}
+
+// client is a connected browser. Events are delivered on events until done is closed.
+type client struct {
+	events chan event
+	done   chan struct{}
 }
 
 type event struct {
@@ -31,14 +37,18 @@ type event struct {
 func (s *Handler) Send(eventType string, data string) {
 	s.m.Lock()
 	defer s.m.Unlock()
-	for _, f := range s.requests {
-		f := f
-		go func(f chan event) {
-			f <- event{
+	for _, c := range s.requests {
+		c := c
+		go func(c client) {
+			// The client can disconnect while the event is waiting to be delivered.
+			select {
+			case c.events <- event{
 				Type: eventType,
 				Data: data,
+			}:
+			case <-c.done:
 			}
-		}(f)
+		}(c)
 	}
 }
 
@@ -51,14 +61,14 @@ func (s *Handler) ServeHTTP(w http.ResponseWriter, r *http.Request) {
 
 	id := atomic.AddInt64(&s.counter, 1)
 	s.m.Lock()
-	events := make(chan event)
-	s.requests[id] = events
+	c := client{events: make(chan event), done: make(chan struct{})}
+	s.requests[id] = c
 	s.m.Unlock()
 	defer func() {
 		s.m.Lock()
 		defer s.m.Unlock()
 		delete(s.requests, id)
-		close(events)
+		close(c.done)
 	}()
 
 	timer := time.NewTimer(0)
@@ -71,7 +81,7 @@ loop:
 				return
 			}
 			timer.Reset(time.Second * 5)
-		case e := <-events:
+		case e := <-c.events:
 			if _, err := fmt.Fprintf(w, "event: %s\ndata: %s\n\n", e.Type, e.Data); err != nil {
 				http.Error(w, err.Error(), http.StatusInternalServerError)
 				return
